@@ -73,6 +73,17 @@ class APM:
         return False
 
 
+class APM3(APM):
+    """an async manager whose __aenter__ / __aexit__ are PLAIN functions returning awaitables (a delegating manager): whether
+    a registration on an AsyncExitStack is async is a fact of the registration, not of the kind of function"""
+
+    def __aenter__(self):
+        return APM.__aenter__(self)
+
+    def __aexit__(self, *a):
+        return APM.__aexit__(self, *a)
+
+
 def _parked_gen():
     yield "parked"
 
@@ -114,7 +125,7 @@ class Env:
     def build(self, n, root_exiting=False):
         k = n["k"]
         if k == "plain":
-            o = APM(n["id"], suspend_in_exit=root_exiting or n.get("suspend", False)) if n["async"] else (CPM if n["id"] % 3 == 1 else PM)(n["id"])
+            o = (APM3 if n["id"] % 3 == 2 else APM)(n["id"], suspend_in_exit=root_exiting or n.get("suspend", False)) if n["async"] else (CPM if n["id"] % 3 == 1 else PM)(n["id"])
         elif k == "gcm":
             o = self.build_gcm(n, root_exiting)
         else:
